@@ -249,6 +249,10 @@ impl Ctx {
         let _ = seed_bytes;
         let mut runner = TestRunner::new(cfg);
         let frozen = std::cell::Cell::new(false);
+        // the most recent failing (case, failure) seen: proptest returns exactly
+        // that case as the shrunk one, so no re-run is needed (a re-run of a
+        // real-process case need not fail again)
+        let last_fail: RefCell<Option<(Value, Fail)>> = RefCell::new(None);
         let result = runner.run(&strat, |v| {
             let mut rep = CaseReport::default();
             let res = f(&v, &mut rep);
@@ -260,7 +264,9 @@ impl Ctx {
                         if self.is_known(&fl.signature) {
                             Ok(())
                         } else {
-                            Err(TestCaseError::fail(fl.signature))
+                            let sig = fl.signature.clone();
+                            *last_fail.borrow_mut() = Some((serde_json::to_value(&v).unwrap_or(Value::Null), fl));
+                            Err(TestCaseError::fail(sig))
                         }
                     }
                 };
@@ -270,19 +276,18 @@ impl Ctx {
                 Ok(())
             } else {
                 frozen.set(true);
-                Err(TestCaseError::fail(res.err().map(|f| f.signature).unwrap_or_default()))
+                let fl = res.err().unwrap_or_else(|| Fail::new("?", ""));
+                let sig = fl.signature.clone();
+                *last_fail.borrow_mut() = Some((serde_json::to_value(&v).unwrap_or(Value::Null), fl));
+                Err(TestCaseError::fail(sig))
             }
         });
         match result {
             Ok(()) => {}
-            Err(TestError::Fail(_, v)) => {
-                let mut rep = CaseReport::default();
-                let res = f(&v, &mut rep);
-                let fl = match res {
-                    Err(fl) => fl,
-                    Ok(()) => Fail::new(format!("{}:nondeterministic", self.prop), "shrunk case passed on re-run"),
-                };
-                self.add_failure(engine, serde_json::to_value(&v).unwrap_or(Value::Null), &fl);
+            Err(TestError::Fail(_, _v)) => {
+                if let Some((case, fl)) = last_fail.borrow_mut().take() {
+                    self.add_failure(engine, case, &fl);
+                }
             }
             Err(TestError::Abort(r)) => {
                 self.inconclusive(format!("proptest aborted in {}: {}", name, r));
@@ -400,6 +405,8 @@ pub fn check_main(def: &PropDef, tier: Tier, seed: u64) -> i32 {
         if pid == 0 {
             unsafe {
                 libc::setpgid(0, 0);
+                // die with the parent (the forking thread is the parent's main thread)
+                libc::prctl(libc::PR_SET_PDEATHSIG, libc::SIGKILL);
                 let fd = libc::open(log.as_ptr(), libc::O_WRONLY | libc::O_CREAT | libc::O_TRUNC, 0o644);
                 if fd >= 0 {
                     libc::dup2(fd, 1);
